@@ -303,8 +303,11 @@ def sponge(rate, suffix, msg, outlen, f=None):
         data += [suffix] + [0] * (q - 2) + [0x80]
     S = [0] * 25
     for i in range(0, len(data), rate):
-        blk = data[i:i + rate] + [0] * (200 - rate)
-        S = f([T.t_xor(S[j], le_word(blk[8 * j:8 * j + 8]), 64) for j in range(25)])
+        # S ^= block || 0^c, one byte at a time: byte p of the block is bits 8*(p mod 8).. of lane p div 8
+        for p in range(rate):
+            b = data[i + p]
+            S[p >> 3] = T.t_xor(S[p >> 3], T.t_shl(T.t_zext(b, 64), 8 * (p & 7), 64), 64)
+        S = f(S)
     out = []
     while True:
         for j in range(rate // 8):
